@@ -371,7 +371,7 @@ def execute_strategy(spec):
                     raise
                 from sim.seams import ID_SEAM
 
-                log.fail("raised", "%s|%s|raised|%s%s" % (spec["strategy"], op["k"], type(e).__name__, "|after-address-reuse" if ID_SEAM.reused else ""), "strategy %s: %s raised %s: %s (%s:%d)" % (spec["strategy"], op["k"], type(e).__name__, str(e)[:200], tb[-1].filename.split("/")[-1], tb[-1].lineno), step=i)
+                log.fail("raised", "%s|%s|raised|%s%s" % (spec["strategy"], op["k"], type(e).__name__, "|after-address-reuse" if ID_SEAM.reused else ""), "strategy %s: %s raised %s: %s (%s:%d)" % (spec["strategy"], op["k"], type(e).__name__, str(e)[:2500], tb[-1].filename.split("/")[-1], tb[-1].lineno), step=i)
                 raise Failure()
     except Failure:
         pass
